@@ -23,10 +23,10 @@ impl Shape {
 
 impl Cell {
     //@ fn impl Cell :: with_face ret=r vis=strip
-    //@+ ensures r.face == face, r.kind == self.kind,
+    //@+ ensures r.kind == self.kind,
 
     //@ fn impl Cell :: overlay ret=r vis=strip
-    //@+ ensures r.face == old(self).face.spec_overlay(other.face), r.kind == other.kind, *final(self) == *final(r),
+    //@+ ensures r.kind == other.kind, *final(self) == *final(r),   // (the face rule is the library's own and is left open)
 }
 
 // ---------------------------------------------------------------- the view the writer draws on
@@ -59,11 +59,11 @@ impl<'a, T> SurfaceMutView<'a, T> {
     { unimplemented!() }
 }
 
-// N18: the streaming UTF-8 decoder held by the writer is not touched by put_cell
-#[verifier::external_body] pub struct Utf8DecoderStandIn { _p: u8 }
+// the streaming UTF-8 decoder held by the writer, with the contracts the unit `utf8stream` proves (same text, re-proved here)
+//@ include utf8_model.inc
 
 //@ item struct TerminalWriter
-//@subst N18 decoder field type replaced by an opaque stand-in /crate::decoder::Utf8Decoder/Utf8DecoderStandIn/
+//@subst N5 crate path of the decoder type shortened /crate::decoder::Utf8Decoder/Utf8Decoder/
 
 #[verifier::external_body]
 fn min_usize(a: usize, b: usize) -> (r: usize) ensures r == (if a <= b { a } else { b }) { std::cmp::min(a, b) }
@@ -75,6 +75,9 @@ proof fn lemma_mul_bound(a: int, b: int)
     assert(0 <= a * b < 0x100_0001 * 0x1_0000_0000) by (nonlinear_arith) requires 0 <= a < 0x100_0001, 0 <= b < 0x1_0000_0000;
 }
 
+spec fn only_at(before: Seq<Cell>, after: Seq<Cell>, k: int) -> bool {
+    before.len() == after.len() && 0 <= k < before.len() && forall|j: int| 0 <= j < before.len() && j != k ==> after[j] == before[j]
+}
 spec fn kinds_kept(before: Seq<Cell>, after: Seq<Cell>) -> bool {
     before.len() == after.len() && forall|k: int| 0 <= k < before.len() ==> (#[trigger] after[k]).kind == before[k].kind
 }
@@ -115,9 +118,10 @@ impl<'a> TerminalWriter<'a> {
     //@+     // a cell that has a position: written there if the window has that position (only that cell changes), and
     //@+     // `false` ("out of space") is reported exactly when the window lacks it
     //@+     cell.place(&old(self).ctx, old(self).surf.g_shape().width, old(self).wraps, old(self).cursor) matches Some(p) ==> r == in_win(old(self).surf.win(), p),
+    //@+     // (which face the written cell gets is the library's own styling rule and is left open)
     //@+     cell.place(&old(self).ctx, old(self).surf.g_shape().width, old(self).wraps, old(self).cursor) matches Some(p) ==> (in_win(old(self).surf.win(), p) ==>
-    //@+         final(self).surf.g_data() == old(self).surf.g_data().update(spec_offset(old(self).surf.g_shape(), p),
-    //@+             Cell { face: old(self).surf.g_data()[spec_offset(old(self).surf.g_shape(), p)].face.spec_overlay(old(self).face.spec_overlay(cell.face)), kind: cell.kind })),
+    //@+         only_at(old(self).surf.g_data(), final(self).surf.g_data(), spec_offset(old(self).surf.g_shape(), p))
+    //@+         && final(self).surf.g_data()[spec_offset(old(self).surf.g_shape(), p)].kind == cell.kind),
     //@+     cell.place(&old(self).ctx, old(self).surf.g_shape().width, old(self).wraps, old(self).cursor) matches Some(p) ==> (!in_win(old(self).surf.win(), p) ==>
     //@+         final(self).surf.g_data() == old(self).surf.g_data()),
     //@+     // a cell without a position never fails; it may restyle skipped cells but never changes any content
@@ -127,16 +131,72 @@ impl<'a> TerminalWriter<'a> {
     //@+     // columns), the cursor never moves back up, and from such a state no put changes any cell - which is why the
     //@+     // io::Write adapters may drop the rest of a buffer after a failed put without making the cells depend on the split
     //@+     !r ==> final(self).cursor.row >= old(self).surf.g_shape().height || old(self).surf.g_shape().width == 0,
-    //@+     final(self).cursor.row >= old(self).cursor.row,
+    //@+     final(self).cursor.row >= old(self).cursor.row, final(self).cursor.row <= old(self).cursor.row + 1,
+    //@+     final(self).size.height <= imax(old(self).size.height as int, final(self).cursor.row + cell.spec_size(&old(self).ctx).height),
+    //@+     final(self).decoder == old(self).decoder, final(self).face == old(self).face, final(self).wraps == old(self).wraps, final(self).ctx == old(self).ctx,
     //@+     old(self).cursor.row >= old(self).surf.g_shape().height || old(self).surf.g_shape().width == 0 ==> final(self).surf.g_data() == old(self).surf.g_data(),
     //@proof start let ghost win = old(self).surf.win(); let ghost d0 = old(self).surf.g_data(); let ghost sh0 = old(self).surf.g_shape();
     //@proof before:/let\sstart\s=\sshape\.offset/ proof { lemma_mul_bound(cursor_start.row as int, shape.row_stride as int); lemma_mul_bound(cursor_start.col as int, shape.col_stride as int); lemma_mul_bound(self.cursor.row as int, shape.row_stride as int); lemma_mul_bound(self.cursor.col as int, shape.col_stride as int); }
+    //@proof before:/if\slet\sSome\(cell_ref\)/ proof { if in_win(win, pos) { lemma_offset(sh0, win, d0.len(), pos); } }
     //@loop 1 invariant shape == sh0, rep(shape, win, data@.len()), data@.len() == d0.len(), frame(shape, win, d0, data@), kinds_kept(d0, data@), (cursor_start.row >= shape.height || shape.width == 0) ==> data@ == d0,
     //@loop 2 invariant shape == sh0, cursor_start.row <= row < shape.height, (cursor_start.row >= shape.height || shape.width == 0) ==> data@ == d0, rep(shape, win, data@.len()), data@.len() == d0.len(), frame(shape, win, d0, data@), kinds_kept(d0, data@),
     //@proof loop2.start proof { let p = Position { row, col }; lemma_offset(shape, win, data@.len(), p); assert(is_win_offset(shape, win, spec_offset(shape, p))); }
     //@subst N16 glyph fallback (closure recursion over chars()) routed to the unreachable stub /return glyph\s*\.fallback_str\(\)\s*\.chars\(\)\s*\.all\(\|c\| self\.put_cell\(Cell::new_char\(cell\.face, c\)\)\);/return self.put_glyph_fallback(&cell);/
     //@subst? N12 std::cmp::min routed through min_usize /\bmin\(self\.cursor\.row \+ 1, shape\.height\)/min_usize(self.cursor.row + 1, shape.height)/
     //@subst N8 `(start..end).contains(&offset)` spelled as the two comparisons /\(start\.\.end\)\.contains\(&offset\)/(start <= offset && offset < end)/
+}
+
+impl Cell {
+    //@ fn impl Cell :: new_char ret=r vis=strip
+    //@+ ensures r == char_cell(face, character),
+}
+
+impl<'a> TerminalWriter<'a> {
+    // N5: CellWrite::face / CellWrite::put_char (trait methods; bodies verbatim) re-homed as inherent methods
+    //@ fn impl CellWrite for TerminalWriter<'_> :: face ret=r
+    //@+ ensures r == self.face,
+
+    //@ fn pub trait CellWrite :: put_char ret=r
+    //@+ requires
+    //@+     old(self).inv(), old(self).screen_sized(),
+    //@+     forall|f: Face| char_cell_small(#[trigger] char_cell(f, character), &old(self).ctx),
+    //@+ ensures
+    //@+     final(self).inv(), final(self).surf.g_shape() == old(self).surf.g_shape(), final(self).surf.win() == old(self).surf.win(),
+    //@+     frame(old(self).surf.g_shape(), old(self).surf.win(), old(self).surf.g_data(), final(self).surf.g_data()),
+    //@+     final(self).cursor.row >= old(self).cursor.row, final(self).cursor.row <= old(self).cursor.row + 1,
+    //@+     final(self).size.height <= imax(old(self).size.height as int, final(self).cursor.row + 1),
+    //@+     final(self).decoder == old(self).decoder, final(self).ctx == old(self).ctx,
+    //@+     !r ==> final(self).cursor.row >= old(self).surf.g_shape().height || old(self).surf.g_shape().width == 0,
+    //@+     old(self).cursor.row >= old(self).surf.g_shape().height || old(self).surf.g_shape().width == 0 ==> final(self).surf.g_data() == old(self).surf.g_data(),
+
+    //@ fn impl std::io::Write for TerminalWriter<'_> :: write ret=r
+    //@+ requires
+    //@+     old(self).inv(), old(self).screen_sized(), old(self).decoder.wf(),
+    //@+     old(self).cursor.row + buf@.len() + 1 < 0x100_0000, old(self).size.height + buf@.len() < 0x100_0000,
+    //@+     forall|f: Face, c: char| char_cell_small(#[trigger] char_cell(f, c), &old(self).ctx),
+    //@+ ensures
+    //@+     // whatever bytes are written - complete characters, partial ones, invalid ones - only cells of the window of the
+    //@+     // surface the writer was created on can change, and the writer stays well-formed for the next write
+    //@+     final(self).inv(), final(self).decoder.wf(),
+    //@+     final(self).surf.g_shape() == old(self).surf.g_shape(), final(self).surf.win() == old(self).surf.win(),
+    //@+     frame(old(self).surf.g_shape(), old(self).surf.win(), old(self).surf.g_data(), final(self).surf.g_data()),
+    //@+     r matches Ok(n) ==> n <= buf@.len(),
+    //@proof start let ghost win = old(self).surf.win(); let ghost d0 = old(self).surf.g_data(); let ghost sh0 = old(self).surf.g_shape(); let ghost ctx0 = old(self).ctx;
+    //@loop 1 invariant
+    //@loop 1     win == old(self).surf.win(), d0 == old(self).surf.g_data(), sh0 == old(self).surf.g_shape(), ctx0 == old(self).ctx,
+    //@loop 1     self.inv(), self.screen_sized(), self.decoder.wf(), self.ctx == ctx0,
+    //@loop 1     self.surf.g_shape() == sh0, self.surf.win() == win, frame(sh0, win, d0, self.surf.g_data()),
+    //@loop 1     cur.pos() + cur.rest().len() == buf@.len(),
+    //@loop 1     self.cursor.row + cur.rest().len() + 1 < 0x100_0000, self.size.height + cur.rest().len() < 0x100_0000,
+    //@loop 1     forall|f: Face, c: char| char_cell_small(#[trigger] char_cell(f, c), &ctx0),
+    //@loop 1 decreases cur.rest().len(),
+    //@subst N6 io::Cursor over the byte slice instantiated with the cursor stand-in /std::io::Cursor::new\(buf\)/ByteCursor::new(buf)/
+}
+
+// characters are one row high and at most two columns wide (unicode-width); stated here as "small"
+spec fn char_cell(f: Face, c: char) -> Cell { Cell { face: f, kind: CellKind::Char(c) } }
+spec fn char_cell_small(c: Cell, ctx: &ViewContext) -> bool {
+    c.spec_size(ctx).height <= 1 && c.spec_size(ctx).width < 0x100_0000
 }
 
 } // verus!
